@@ -505,7 +505,7 @@ pub fn check_conc(case: &ConcCase, trace: &ConcTrace) -> Result<Option<Discrepan
         (LinResult::None { explored }, why) => Ok(Some(Discrepancy {
             // no sequential explanation exists: positions (C02), counts/verdict (C03) and - if ordered
             // patterns are involved - the slot sequence (C04) are all not what any sequential run gives
-            props: vec!["C10", "C02", "C03", "C04"],
+            props: vec!["C10", "C02", "C03", "C04", "C18"],
             at: "history".into(),
             expected: format!(
                 "a linearization under Spec-M (explored {explored} nodes){}",
